@@ -75,6 +75,8 @@ class Walk(ast.NodeVisitor):
         self.reads = []      # (node, tuple(scope node ids path))
         self.binds = {}      # (line, col) -> path
         self.scopes = {}     # id(scope node) -> node
+        self.comp_targets = {}   # id(comp node) -> set of target names
+        self.globals_of = {}     # id(function node) -> names declared global
 
     def path(self):
         return tuple(self.stack)
@@ -97,6 +99,10 @@ class Walk(ast.NodeVisitor):
         if n.name:
             self.binds[(n.lineno, n.col_offset)] = self.path()
         self.generic_visit(n)
+
+    def visit_Global(self, n):
+        if self.stack:
+            self.globals_of.setdefault(self.stack[-1], set()).update(n.names)
 
     def func(self, n):
         a = n.args
@@ -132,6 +138,7 @@ class Walk(ast.NodeVisitor):
         self.visit(gens[0].iter)            # evaluated in the enclosing scope
         self.stack.append(id(n))
         self.scopes[id(n)] = n
+        self.comp_targets[id(n)] = {x.id for g in gens for x in ast.walk(g.target) if isinstance(x, ast.Name)}
         for gi, g in enumerate(gens):
             self.visit(g.target)
             if gi:
@@ -164,7 +171,7 @@ def name_of(node):
     return {ast.Lambda: 'lambda', ast.ListComp: 'listcomp', ast.SetComp: 'setcomp', ast.DictComp: 'dictcomp', ast.GeneratorExp: 'genexpr'}[type(node)]
 
 
-def analyse(source, filename, spec_owners=None):
+def analyse(source, filename, spec_owners=None, pinned=False):
     """-> case dict or None"""
     from supp.project import Project
     from supp.nast import extract_scope
@@ -261,6 +268,7 @@ def analyse(source, filename, spec_owners=None):
         al = sn.alt_names if isinstance(sn, MultiName) else [sn]
         alts = []
         unknown = False
+        leaked = False
         for a in al:
             if type(a) is UndefinedName:
                 continue
@@ -277,6 +285,8 @@ def analyse(source, filename, spec_owners=None):
                 unknown = True
                 continue
             register(bpath)
+            if bpath and isinstance(w.scopes[bpath[-1]], COMPS) and tuple(path[:len(bpath)]) != tuple(bpath):
+                leaked = True       # the target of a comprehension the read is not part of (finding C05-comp-target-leaks)
             eo = effective_owner(bpath, n.id)
             if eo is None:
                 unknown = True
@@ -292,13 +302,28 @@ def analyse(source, filename, spec_owners=None):
                     skip = t is not None and t.lookup(n.id).is_local()
                 except KeyError:
                     skip = False
+        # unfixed findings (known_findings.json C05-comp-in-class / C05-comp-target-global): supp has no scope of its own
+        # for comprehensions, so (A) a read inside a comprehension written directly in a class body sees the class's
+        # names, (B) a comprehension target named like a `global` declaration of the enclosing function is global
+        known = ''
+        k = len(path)
+        while k > 0 and isinstance(w.scopes[path[k - 1]], COMPS):
+            k -= 1
+        if k < len(path):
+            outer = w.scopes[path[k - 1]] if k > 0 else None
+            if isinstance(outer, ast.ClassDef):
+                known = 'A'
+            elif outer is not None and n.id in w.globals_of.get(path[k - 1], ()) and any(n.id in w.comp_targets.get(c, ()) for c in path[k:]):
+                known = 'B'
+        if leaked and not known:
+            known = 'C'
         spec = -1
         if spec_owners is not None and n.id == 'x':
             depth = len(path)
             spec = spec_owners[depth - 1] if depth >= 1 else 0
             # ids are assigned in order of appearance = depth for a chain
-        reads.append({'scope': sid(path), 'spec': spec, 'sym': so, 'alts': alts, 'skip': bool(skip), 'name': n.id,
-                      'pos': [n.lineno, n.col_offset], 'partial': unknown})
+        reads.append({'scope': sid(path), 'spec': spec, 'sym': so, 'alts': alts, 'skip': bool(skip or (known and not pinned)), 'name': n.id,
+                      'pos': [n.lineno, n.col_offset], 'partial': unknown, 'known': known})
     nmax = max([0] + list(norm))
     return {'reads': reads, 'norm': [norm.get(i, i) for i in range(nmax + 1)]}
 
@@ -347,6 +372,10 @@ def main():
             out.append({'id': cid, 'error': '%s: %s' % (type(e).__name__, e), 'source': src})
             continue
         c.update({'id': cid, 'source': src, 'chain': chain})
+        out.append(c)
+    for cid, src in data.get('pinned', []):
+        c = analyse(src, '/nonexistent-verif-root/pinned.py', None, pinned=True)
+        c.update({'id': cid, 'source': src, 'pinned': True})
         out.append(c)
     for cid, path in data.get('files', []):
         try:
